@@ -29,7 +29,7 @@ inductive Err
 deriving Repr, DecidableEq
 
 structure Cfg where
-  tbl : List Utf8Row := utf8Table
+  cm : Cmgr := utf8Cmgr utf8Table   -- tio->cmgr (hawk_tio_setcmgr)
   capa : Nat                  -- in.buf.capa / out.buf.capa
   ignoreEcerr : Bool := true  -- HAWK_TIO_IGNOREECERR
   noAutoFlush : Bool := false -- HAWK_TIO_NOAUTOFLUSH
@@ -78,7 +78,7 @@ inductive Step
   | more (tail : List UInt8)      -- the incomplete tail was shifted to the head: `goto getc_conv`
 
 def convPart (cfg : Cfg) (bufsize : Nat) (st : InSt) : Step :=
-  match convUpto cfg.tbl 0x0A bufsize (st.buf.drop st.cur) with
+  match convUpto cfg.cm 0x0A bufsize (st.buf.drop st.cur) with
   | .error f => .done st (.fault f)
   | .ok (x, mlen, out) =>
     let st := { st with cur := st.cur + mlen }
@@ -286,7 +286,7 @@ possible when the buffer capacity is smaller than one character, which `hawk_tio
 def writeULoop (cfg : Cfg) (ws : List Nat) (o : OutSt) (nl : Bool) : OutSt × Bool × Option (Sum Err Fault) :=
   if hw : ws = [] then (o, nl, none)
   else
-    match convUtoB cfg.tbl ws (cfg.capa - o.buf.length) with
+    match convUtoB cfg.cm ws (cfg.capa - o.buf.length) with
     | (n, wcnt, bs) =>
       let o1 : OutSt := { o with buf := o.buf ++ bs }
       if n = -2 then
@@ -377,5 +377,35 @@ def writeBchars (cfg : Cfg) (bs : List UInt8) (o : OutSt) : OutSt × Option (Sum
         | (o3, none) => (o3, some (.inl .eioerr))
         | (o3, some _) => (o3, none)
       else (o2, none)
+
+/-- the byte loop of `hawk_tio_writebchars (tio, mptr, (hawk_oow_t)-1)` (null-terminated source, behind hawk_sio_putbcstr).
+After a flush in which the handler accepted nothing the buffer is still full: before staging the next byte the repaired code
+(patches/tio-writebcstr-full.diff) fails with HAWK_EBUFFULL, the unrepaired code (`legacy`) stored it beyond the buffer. -/
+def writeBcstrLoop (cfg : Cfg) : List UInt8 → OutSt → Bool → OutSt × Bool × Option (Sum Err Fault)
+  | [], o, nl => (o, nl, none)
+  | b :: rest, o, nl =>
+    if o.buf.length ≥ cfg.capa then
+      -- the last flush handed out nothing: (repair) HAWK_EBUFFULL; the unrepaired code stored at out.buf.ptr[capa]
+      (o, nl, some (if cfg.legacy then .inr .oobWrite else .inl .ebuffull))
+    else
+      let o1 : OutSt := { o with buf := o.buf ++ [b] }
+      if o1.buf.length ≥ cfg.capa then
+        match flush o1 with
+        | (o2, none) => (o2, nl, some (.inl .eioerr))
+        | (o2, some _) => writeBcstrLoop cfg rest o2 false
+      else writeBcstrLoop cfg rest o1 (if cfg.noAutoFlush then false else (nl || b == 0x0A))
+
+/-- `hawk_tio_writebchars (tio, mptr, (hawk_oow_t)-1)` -/
+def writeBcstr (cfg : Cfg) (bs : List UInt8) (o : OutSt) : OutSt × Option (Sum Err Fault) :=
+  if o.buf.length ≥ cfg.capa then (o, some (.inl .ebuffull))
+  else
+    match writeBcstrLoop cfg (bs.takeWhile (· ≠ 0)) o false with
+    | (o1, _, some e) => (o1, some e)
+    | (o1, nl, none) =>
+      if nl then
+        match flush o1 with
+        | (o2, none) => (o2, some (.inl .eioerr))
+        | (o2, some _) => (o2, none)
+      else (o1, none)
 
 end Hawk.Tio
